@@ -27,7 +27,7 @@ ASSUMPTIONS = ['content = k, strand mode, sample names and rows; ska_version and
                'single faults only: one truncation or one flipped bit per copy',
                'an abort (allocation failure) is a rejection with an error, counted separately']
 REQUIRED = {'quick': ['cli_copies_judged', 'lib_copies_judged', 'files_64bit', 'files_128bit', 'accepted_identical', 'rejected',
-                      'subcommand_samples'],
+                      'subcommand_samples', 'crash_points_kill', 'crash_points_enospc'],
             'thorough': ['cli_copies_judged', 'lib_copies_judged', 'files_64bit', 'files_128bit', 'accepted_identical', 'rejected',
                          'subcommand_samples', 'multi_frame_files', 'crash_points_kill', 'crash_points_enospc', 'asan_copies_judged', 'targeted_copies_judged']}
 MEM_GB = 3
@@ -80,6 +80,15 @@ def make_files(tier, rng, ctx):
     files.append({'name': 'twoframe64', 'k': 31, 'path': build('twoframe64', 31, [[G.rseq(rng, 6200)]]), 'cli': False})
     files.append({'name': 'twoframe64b', 'k': 31, 'path': build('twoframe64b', 31, [[G.rseq(rng, 5730)]]), 'cli': False})
     files.append({'name': 'twoframe64c', 'k': 31, 'path': build('twoframe64c', 31, [[G.rseq(rng, 8030)]]), 'cli': False})
+    # for the crash route only: a table whose base matrix spans several frames, with a handful of ambiguous bases far apart.  An
+    # in-place `weed --ambig-mask` rewrites those few bytes and nothing else, so the new file's frames line up with the old one's
+    # and a rewrite that does not start from an empty file would leave a splice with valid checksums
+    ag = G.rseq(rng, 40000)
+    ag2 = list(ag[:20000])
+    for i_ in range(1000, len(ag2), 2500):
+        ag2[i_] = {'A': 'C', 'C': 'A', 'G': 'T', 'T': 'G'}[ag2[i_]]
+    files.append({'name': 'ambcrash64', 'k': 31, 'cli': False, 'crash_only': True,
+                  'path': build('ambcrash64', 31, [[ag, ''.join(ag2)], [ag[:30000] + G.rseq(rng, 3000)], [ag[5000:]], [ag[:35000]]])})
     if tier == 'thorough':
         big = G.rseq(rng, 8000)
         files.append({'name': 'manyframes64', 'k': 31, 'path': build('manyframes64', 31, [[big], [big[:4000] + G.rseq(rng, 4000)], [G.rseq(rng, 4500)]]), 'cli': False})
@@ -109,7 +118,7 @@ def prepare(tier, seed, rng, scale, ctx):
                 lf = ctx.write('%s_%s_%d.idx' % (f['name'], mode, a), '\n'.join(str(x) for x in idx[a:a + 1500]) + '\n')
                 descs.append({'route': 'lib', 'mode': mode, 'list_file': lf, 'n': len(idx[a:a + 1500]), 'skf_file': f['path'], 'name': f['name'], 'k': f['k']})
         descs.append({'route': 'meta', 'skf_file': f['path'], 'name': f['name'], 'k': f['k'], 'size': f['size']})
-    for f in [x for x in files if not x.get('targeted')]:
+    for f in [x for x in files if not x.get('targeted') and not x.get('crash_only')]:
         size = f['size']
         # library route: all truncation points, all bit flips, in shards
         nshard_t = max(1, size // 20000)
@@ -139,12 +148,14 @@ def prepare(tier, seed, rng, scale, ctx):
             descs.append({'route': 'sub', 'n': min(10, nsamp - j), 'seed': rng.getrandbits(32), 'skf_file': f['path'], 'name': f['name'], 'k': f['k'],
                           'lo': f.get('lo', False)})
         descs.append({'route': 'meta', 'skf_file': f['path'], 'name': f['name'], 'k': f['k'], 'size': size})
-    if tier == 'thorough':
-        for f in files:
-            if f['name'] in ('twelve', 'twoframe128', 'snps64', 'manyframes64'):
-                for cmd in ('delete', 'weed'):
-                    for fault in ('kill', 'enospc'):
-                        descs.append({'route': 'crash', 'cmd': cmd, 'fault': fault, 'skf_file': f['path'], 'name': f['name'], 'k': f['k']})
+    for f in files:
+        if tier == 'thorough' and f['name'] in ('twelve', 'twoframe128', 'snps64', 'manyframes64', 'ambcrash64'):
+            for cmd in ('delete', 'weed', 'maskweed'):
+                for fault in ('kill', 'enospc'):
+                    descs.append({'route': 'crash', 'cmd': cmd, 'fault': fault, 'skf_file': f['path'], 'name': f['name'], 'k': f['k']})
+        elif tier == 'quick' and f['name'] == 'ambcrash64':
+            for cmd, fault in (('maskweed', 'kill'), ('delete', 'kill'), ('maskweed', 'enospc')):
+                descs.append({'route': 'crash', 'cmd': cmd, 'fault': fault, 'skf_file': f['path'], 'name': f['name'], 'k': f['k']})
     rng.shuffle(descs)
     return descs
 
@@ -382,6 +393,9 @@ def run_crash(desc, ctx, res):
         if len(names) < 2:
             return
         args = ['delete', '-s', '@', names[0]]
+    elif desc['cmd'] == 'maskweed':
+        # rewrites every ambiguous base as N and nothing else: same rows, same layout, other content
+        args = ['weed', '@', '--ambig-mask', '--min-freq', '0']
     else:
         a = next(iter(T))
         G.write_fa(ctx.path('w.fa'), [a[:h] + 'A' + a[h:]])
@@ -419,6 +433,8 @@ def run_crash(desc, ctx, res):
             res.count('rejected')
         elif content_of(q.stdout) == want:
             res.count('accepted_identical')
+        elif content_of(q.stdout) == content_of(o.stdout):
+            res.count('accepted_as_the_file_before_the_operation')
         else:
             res.violate(sig, '%s interrupted (%s) at write %d leaves a %d-byte file that is accepted as different content'
                         % (desc['cmd'], desc['fault'], n, len(left)), desc)
